@@ -8,7 +8,7 @@ use std::io::{Read, Write};
 use crate::system::System;
 use crate::system::real::RealSystem;
 use super::super::simsys::World;
-use super::super::scen::RULER_DIR;
+use super::super::scen::ruler_dir;
 
 fn read_all<S : System>(sys : &S, path : &str, chunk : usize) -> String
 {
@@ -104,7 +104,7 @@ fn compare() -> (usize, Vec<(bool, String, String)>)
     // cwd of this process is the scratch directory prepared by the driver
     let mut real = RealSystem::new();
     let real_obs = script(&mut real);
-    let w = World::new(Knobs::default(), RULER_DIR);
+    let w = World::new(Knobs::default(), &ruler_dir());
     let mut sim = w.system();
     let sim_obs = script(&mut sim);
     let mut out = vec![];
@@ -155,7 +155,7 @@ mod real_run
     use std::path::Path;
     use crate::build::{build, clean, BuildParams};
     use super::super::super::hist::{Runner, cache_dir, table_path, history_dir};
-    use super::super::super::scen::{DirPart, RULER_DIR};
+    use super::super::super::scen::{DirPart, ruler_dir};
     use super::super::super::simsys::{RecPrinter, Printed};
 
     fn walk(dir : &Path, prefix : &str, out : &mut BTreeMap<String, (Vec<u8>, bool)>)
@@ -184,8 +184,9 @@ mod real_run
         let n = case.rule_files % 10;
         let mid = if n >= 2 { (rules.len() + 1) / 2 } else { rules.len() };
         let text = |rs : &[SRule]| rs.iter().map(|r| r.render_shell()).collect::<Vec<String>>().join("\n");
-        let _ = fs::write("build.rules", text(&rules[..mid]));
-        if n >= 2 { let _ = fs::write("more.rules", text(&rules[mid..])); }
+        let names = case.rulefile_paths();
+        let _ = fs::write(&names[0], text(&rules[..mid]));
+        if n >= 2 { let _ = fs::write(&names[1], text(&rules[mid..])); }
     }
 
     fn banners(lines : &[Printed]) -> Vec<(String, String)>
@@ -211,7 +212,7 @@ mod real_run
     fn run(case : &Case) -> (usize, Option<String>)
     {
         let mut sim = Runner::new(case);
-        for d in case.dirs.iter() { let _ = fs::create_dir_all(d); }
+        for d in case.dirs.iter() { if !d.starts_with('@') { let _ = fs::create_dir_all(d); } }
         for (p, c) in case.files.iter() { let _ = fs::write(p, c); }
         let mut rules = case.rules.clone();
         write_rules(case, &rules);
@@ -250,7 +251,7 @@ mod real_run
                 },
                 Op::DeleteRulerDir{ part } => match part
                 {
-                    DirPart::Whole => { let _ = fs::remove_dir_all(RULER_DIR); },
+                    DirPart::Whole => { let _ = fs::remove_dir_all(&ruler_dir()); },
                     DirPart::Cache => { let _ = fs::remove_dir_all(cache_dir()); },
                     DirPart::History => { let _ = fs::remove_dir_all(history_dir()); },
                     DirPart::HistoryFile(pick) =>
@@ -268,12 +269,12 @@ mod real_run
                 Op::Build{ goal, .. } =>
                 {
                     let mut printer = RecPrinter::new();
-                    let r = build(RealSystem::new(), &mut printer, BuildParams::from_all(RULER_DIR.to_string(), case.rulefile_paths(), None, goal.clone()));
+                    let r = build(RealSystem::new(), &mut printer, BuildParams::from_all(ruler_dir(), case.rulefile_paths(), None, goal.clone()));
                     real_verdict = Some((match r { Ok(()) => "Ok".to_string(), Err(e) => format!("Err({})", first_word(&format!("{:?}", e))) }, banners(&printer.lines)));
                 },
                 Op::Clean{ goal, .. } =>
                 {
-                    let r = clean(RealSystem::new(), RULER_DIR, case.rulefile_paths(), goal.clone());
+                    let r = clean(RealSystem::new(), &ruler_dir(), case.rulefile_paths(), goal.clone());
                     real_verdict = Some((match r { Ok(()) => "Ok".to_string(), Err(e) => format!("Err({})", first_word(&format!("{:?}", e))) }, vec![]));
                 },
             }
@@ -288,9 +289,10 @@ mod real_run
             let mut real_ws = BTreeMap::new();
             walk(Path::new("."), "", &mut real_ws);
             let real_cache : BTreeSet<Vec<u8>> = real_ws.iter().filter(|(p, _)| p.starts_with(&format!("{}/", cache_dir()))).map(|(_, (c, _))| c.clone()).collect();
-            let real_files : BTreeMap<String, (Vec<u8>, bool)> = real_ws.into_iter().filter(|(p, _)| !p.starts_with(&format!("{}/", RULER_DIR)) && !p.ends_with(".rules")).collect();
+            let rule_names = case.rulefile_paths();
+            let real_files : BTreeMap<String, (Vec<u8>, bool)> = real_ws.into_iter().filter(|(p, _)| !p.starts_with(&format!("{}/", &ruler_dir())) && !rule_names.contains(p)).collect();
             let disk = sim.world.snapshot().0;
-            let sim_files : BTreeMap<String, (Vec<u8>, bool)> = disk.workspace(RULER_DIR).into_iter().filter(|(p, _)| !p.ends_with(".rules")).map(|(p, (c, x))| (p, ((*c).clone(), x))).collect();
+            let sim_files : BTreeMap<String, (Vec<u8>, bool)> = disk.workspace(&ruler_dir()).into_iter().filter(|(p, _)| !rule_names.contains(p)).map(|(p, (c, x))| (p, ((*c).clone(), x))).collect();
             let sim_cache : BTreeSet<Vec<u8>> = super::super::super::hist::cache_contents(&disk).into_iter().map(|(_, c)| (*c).clone()).collect();
             compared += 1;
             if real_files != sim_files
